@@ -225,7 +225,7 @@ def _ladder_chunk(cases):
 
 
 def run_ladder(tier, col):
-    cases = list(ladder.cases_for(tier))
+    cases = list(ladder.cases_for(tier, leftovers=True))
     for res in pmap(_ladder_chunk, [cases[i::64] for i in range(64)]):
         for case, fails in res:
             for sig, msg in fails:
